@@ -8,6 +8,7 @@ use std::mem;
 macro_rules! html_trace { ($($t:tt)*) => {} }
 macro_rules! html_trace_quiet { ($($t:tt)*) => {} }
 verus! {
+//@export-begin
 global size_of usize == 8;
 
 use vstd::std_specs::cmp::{PartialEqSpec, PartialEqSpecImpl};
@@ -237,6 +238,11 @@ fn vec_take<E>(v: &mut Vec<E>) -> (r: Vec<E>)
 pub assume_specification [ String::insert_str ] (s: &mut String, idx: usize, t: &str)
     requires idx == 0,
     ensures final(s)@ == t@ + old(s)@;
+// `std::mem::take(&mut tl).v` on a TaggedLine: Default is TaggedLine::new() (src/render/text_renderer.rs:146-150)
+#[verifier::external_body]
+fn tl_take_items<T>(tl: &mut TaggedLine<T>) -> (r: Vec<TaggedLineElement<T>>)
+    ensures r@ == old(tl).v@, final(tl).v@.len() == 0, final(tl).len == 0,
+{ unimplemented!() }
 // ---- abstract views (ours) ----
 pub enum CItem<T> { Ch(char, T), Frag(Seq<char>) }
 spec fn cwn(c: char) -> nat { match cw(c) { Some(w) => w as nat, None => 0 } }
@@ -1150,6 +1156,112 @@ impl<T: Clone + Eq + Debug + Default> WrappedBlock<T> {
         Ok(())
     }
 //@end
+
+//@item src/render/text_renderer.rs :: impl WrappedBlock :: fn flush
+//@sub /-> Result<\(\)>/ ==> -> (r: Result<()>)
+//@auto C01 C02
+    fn flush(&mut self) -> (r: Result<()>)
+        requires old(self).inv(), tag_ok::<T>(), //@w
+            old(self).width >= 1, //@w #width_ge_1
+        ensures //@w
+            final(self).inv_wf(), final(self).inv_ws(), final(self).inv_bound(), //@w @C01 #flush_inv
+            final(self).inv_out(), //@w @C02 @C11 #flush_out
+            final(self).inv_fit(), //@w @C02 #flush_fit
+            final(self).frame(old(self)), //@w @C02 @C15 #flush_frame
+            old(self).allow_overflow ==> r.is_ok(), //@w @C11 #flush_overflow_ok
+            r.is_ok() ==> final(self).inv_word() && final(self).wordlen == 0 && no_str(final(self).word.v@) && no_str(final(self).line.v@) && final(self).line.len == 0, //@w @C03 @C04 #flush_everything_emitted
+            final(self).text@.len() >= old(self).text@.len(), final(self).text@.take(old(self).text@.len() as int) =~= old(self).text@, //@w @C03 #flush_keeps_emitted_lines
+    {
+        self.flush_word(WhiteSpace::Normal)?;
+        self.flush_line();
+        Ok(())
+    }
+//@end
+
+//@item src/render/text_renderer.rs :: impl WrappedBlock :: fn into_lines
+//@sub /-> Result<Vec<TaggedLine<T>>>/ ==> -> (r: Result<Vec<TaggedLine<T>>>)
+//@sub /fn into_lines\(mut self\)/ ==> fn into_lines(self)
+//@sub /self\.flush\(\)\?;/ ==> let mut this = self;\n        this.flush()?;
+//@sub /Ok\(self\.text\)/ ==> Ok(this.text)
+//@auto C01 C02
+    fn into_lines(self) -> (r: Result<Vec<TaggedLine<T>>>)
+        requires self.inv(), tag_ok::<T>(), //@w
+            self.width >= 1, //@w #width_ge_1
+        ensures //@w
+            self.allow_overflow ==> r.is_ok(), //@w @C11 #into_lines_overflow_ok
+            // every line handed to the renderer is at most `width` columns wide (C02), or a single over-wide character when overflow is allowed (C11) //@w
+            r matches Ok(lines) ==> forall|i: int| 0 <= i < lines@.len() ==> (#[trigger] lines@[i]).wf() && self.line_fits(lines@[i]), //@w @C02 @C11 #block_lines_fit
+            r matches Ok(lines) ==> lines@.len() >= self.text@.len() && lines@.take(self.text@.len() as int) =~= self.text@, //@w @C03 #into_lines_keeps_emitted
+    {
+        let mut this = self;
+        this.flush()?;
+
+        Ok(this.text)
+    }
+//@end
+
+//@item src/render/text_renderer.rs :: impl WrappedBlock :: fn add_element
+//@auto C01 C14
+    fn add_element(&mut self, elt: TaggedLineElement<T>)
+        requires old(self).inv(), tag_ok::<T>(), //@w
+            ew(elt) == 0 && elt_some(elt), //@w #only_zero_width_elements
+        ensures //@w
+            final(self).inv(), //@w @C14 @C02 #marker_has_no_width
+            flat(final(self).word.v@) =~= flat(old(self).word.v@) + flat_elt(elt), //@w @C14 #marker_recorded_in_word
+            final(self).text == old(self).text && final(self).line == old(self).line && final(self).wslen == old(self).wslen && final(self).wordlen == old(self).wordlen && final(self).spacetag == old(self).spacetag && final(self).pre_wrapped == old(self).pre_wrapped, //@w @C14 #marker_changes_nothing_else
+            final(self).frame(old(self)), //@w @C15
+    {
+        self.word.push(elt);
+    }
+//@end
+
+//@item src/render/text_renderer.rs :: impl WrappedBlock :: fn text_len
+//@sub /-> usize/ ==> -> (r: usize)
+//@auto C01
+    fn text_len(&self) -> (r: usize)
+        requires self.inv_bound(), self.text@.len() <= 0x4000_0000_0000_0000, //@w
+        ensures r == self.text@.len() + self.line.len + self.wordlen, //@w @C13 #text_len
+    {
+        self.text.len() + self.line.len + self.wordlen
+    }
+//@end
+
+//@item src/render/text_renderer.rs :: impl WrappedBlock :: fn is_empty
+//@sub /-> bool/ ==> -> (r: bool)
+//@auto C01
+    fn is_empty(&self) -> (r: bool)
+        requires self.inv_bound(), self.text@.len() <= 0x4000_0000_0000_0000, //@w
+        ensures r == (self.text@.len() == 0 && self.line.len == 0 && self.wordlen == 0), //@w @C13 #wb_is_empty
+    {
+        self.text_len() == 0
+    }
+//@end
+
+//@item src/render/text_renderer.rs :: impl WrappedBlock :: fn take_trailing_fragments
+//@sub /-> Vec<TaggedLineElement<T>>/ ==> -> (r: Vec<TaggedLineElement<T>>)
+//@sub /std::mem::take\(&mut self\.word\)\.v/ ==> tl_take_items(&mut self.word)
+//@sub /Default::default\(\)/ ==> Vec::new()
+//@auto C01 C14
+    fn take_trailing_fragments(&mut self) -> (r: Vec<TaggedLineElement<T>>)
+        requires old(self).inv(), //@w
+        ensures //@w
+            // markers recorded after the last word are handed back (to become pending), never dropped (C14) //@w
+            no_str(old(self).word.v@) ==> r@ == old(self).word.v@ && final(self).word.v@.len() == 0, //@w @C14 #trailing_markers_returned
+            !no_str(old(self).word.v@) ==> r@.len() == 0 && final(self).word == old(self).word, //@w @C14 @C03 #word_with_text_untouched
+            no_str(r@), //@w @C14
+            final(self).inv(), //@w @C02
+            final(self).text == old(self).text && final(self).line == old(self).line && final(self).wslen == old(self).wslen && final(self).wordlen == old(self).wordlen && final(self).spacetag == old(self).spacetag, //@w @C03
+            final(self).frame(old(self)), //@w @C15
+    {
+        proof { if no_str(self.word.v@) { lemma_no_str_cwid(self.word.v@); } } //@w
+        if self.word.is_empty() {
+            tl_take_items(&mut self.word)
+        } else {
+            Vec::new()
+        }
+    }
+//@end
 }
+//@export-end
 } // verus!
 fn main() {}
